@@ -10,8 +10,11 @@ cd "$WT"
 if git apply --check "$D/seed$K.patch.diff" 2>/dev/null; then git apply "$D/seed$K.patch.diff"; echo "APPLY ok"; else echo "APPLY fail"; git -C /repo worktree remove --force "$WT"; exit 0; fi
 PYTHONPATH="$WT" timeout 300 /venv/bin/python "$D/seed${K}_demo.py" >/tmp/cs-$ID.demo1 2>&1; r1=$?
 [ $r1 -ne 0 ] && echo "DEMO_WITH fail(expected) rc=$r1" || echo "DEMO_WITH pass(UNEXPECTED)"
-PYTHONPATH="$WT" /venv/bin/python -m pytest -q -p no:cacheprovider -n ${CS_JOBS:-6} --timeout=900 pint/testsuite 2>&1 | tail -1 > /tmp/cs-$ID.suite
+PYTHONPATH="$WT" /venv/bin/python -m pytest -q -p no:cacheprovider -n ${CS_JOBS:-6} --timeout=900 pint/testsuite > /tmp/cs-$ID.suite.full 2>&1
+tail -1 /tmp/cs-$ID.suite.full > /tmp/cs-$ID.suite
 echo "SUITE $(cat /tmp/cs-$ID.suite)"
+grep -E "^FAILED|^ERROR" /tmp/cs-$ID.suite.full | sed 's/^/SUITE-DETAIL /' | head -5
+rm -f /tmp/cs-$ID.suite.full
 git checkout -q -- .
 PYTHONPATH="$WT" timeout 300 /venv/bin/python "$D/seed${K}_demo.py" >/tmp/cs-$ID.demo2 2>&1; r2=$?
 [ $r2 -eq 0 ] && echo "DEMO_WITHOUT pass(expected)" || echo "DEMO_WITHOUT fail(UNEXPECTED) rc=$r2"
